@@ -100,7 +100,7 @@ VARIANTS = {
     "rel_l3": ("Release", "-D%s" % GUARD, None, {"LIBECPINT_MAX_L": "3"}),
     "nohook": ("Release", "", None, {}),
     "asan": ("RelWithDebInfo",
-             "-D%s -O1 -g -fsanitize=address,undefined -fno-sanitize-recover=all -fno-omit-frame-pointer -D_GLIBCXX_ASSERTIONS" % GUARD,
+             "-D%s -O1 -g -fsanitize=address,undefined,float-cast-overflow -fno-sanitize-recover=all -fno-omit-frame-pointer -D_GLIBCXX_ASSERTIONS" % GUARD,
              None, {}),
     # C10 runs WITHOUT the hooks: their trace counters are deliberately not thread-safe
     "tsan": ("RelWithDebInfo", "-O1 -g -fsanitize=thread", "clang++", {}),
@@ -112,7 +112,8 @@ def build_lib(variant="rel"):
     root, containing src/ (snapshot of the sources) and b/ (cmake build dir).
     Cached by content hash of the working tree, so the same tree is built
     once per variant however many checks ask for it."""
-    key = "%s-%s" % (tree_hash(), variant)
+    fh = hashlib.sha256(repr(VARIANTS[variant]).encode()).hexdigest()[:6]
+    key = "%s-%s%s" % (tree_hash(), "" if variant in ("rel", "tsan") else fh + "-", variant)
     root = os.path.join(CACHE, key)
     stamp = os.path.join(root, "OK")
     if os.path.exists(stamp):
